@@ -16,7 +16,7 @@ import (
 // ---------------------------------------------------------------------------------------
 
 func structRoot(kind string, m map[string]VD) RootD {
-	return RootD{Kind: kind, Map: m, Plain: "P", Tagged: 7, Hidden: "H", List: []int{4, 5}, SubA: "a", Short: "short-id", Long: "LONG-ID", Token: "t0k3n", Dash: "dash-value", Type: "legacy-type", KindF: "real-kind"}
+	return RootD{Kind: kind, Map: m, Plain: "P", Tagged: 7, Hidden: "H", List: []int{4, 5}, SubA: "a", Short: "short-id", Long: "LONG-ID", Token: "t0k3n", Dash: "dash-value", Type: "legacy-type", KindF: "real-kind", Acct: 12, Bare: "bare-value"}
 }
 
 // enumRoots: nil, map, struct, pointer to struct, struct whose field is shadowed by the root map,
@@ -103,8 +103,18 @@ func preludeAlphabet(pos int) []Op {
 	}
 }
 
+// numberZooEntries: one number per Go kind, integral and non-exact values.
+func numberZooEntries() map[string]VD {
+	m := map[string]VD{"f32tenth": {K: "f32", S: "0.1"}, "f32price": {K: "f32", S: "19.99"}, "f32exact": {K: "f32", S: "2.5"}, "f32big": {K: "f32", S: "1e21"}, "f32tiny": {K: "f32", S: "1.5e-7"},
+		"f64tenth": {K: "f64", S: "0.1"}, "f64price": {K: "f64", S: "19.99"}, "f64big": {K: "f64", S: "1e21"}, "f64tiny": {K: "f64", S: "1.5e-7"}, "f64int": {K: "f64", S: "3"}, "yes": {K: "bool", S: "true"}}
+	for _, k := range []string{"int8", "int16", "int32", "int64", "uint", "uint8", "uint16", "uint32", "uint64"} {
+		m[k] = VD{K: k, S: "44"}
+	}
+	return m
+}
+
 func zooNode(name string, rich bool) VD {
-	m := map[string]VD{"Name": vStr(name), "Title": vStr("t-" + name), "hidden": vStr("h-" + name), "Short": vStr("short-" + name), "Long": vStr("LONG-" + name), "Type": vStr("type-" + name), "Kind": vStr("kind-" + name)}
+	m := map[string]VD{"Name": vStr(name), "Title": vStr("t-" + name), "hidden": vStr("h-" + name), "Short": vStr("short-" + name), "Long": vStr("LONG-" + name), "Type": vStr("type-" + name), "Kind": vStr("kind-" + name), "Acct": vInt(12), "Bare": vStr("bare-" + name)}
 	if rich {
 		m["Count"] = vInt(3)
 		m["Any"] = vMap("mapss", map[string]VD{"k": vStr("s")})
@@ -124,24 +134,25 @@ func zooNode(name string, rich bool) VD {
 // zoo: fixed values that together contain every container kind in every nesting position.
 func zoo() []VD {
 	a := vMap("map", map[string]VD{
-		"a":   vList("slice", vInt(1), vMap("map", map[string]VD{"k": vStr("v"), "0": vStr("zero")}), vList("ints", vInt(5), vInt(6)), vNil()),
-		"n":   zooNode("nm", true),
-		"p":   vList("ptr", zooNode("pn", false)),
-		"np":  {K: "nilptr", S: "node"},
-		"ss":  vMap("mapss", map[string]VD{"k": vStr("v"), "0": vStr("z")}),
-		"mi":  vMap("mapis", map[string]VD{"1": vStr("one"), "2": vStr("two")}),
-		"ar":  vList("arr3", vInt(7), vInt(8), vInt(9)),
-		"s":   vStr("scalar"),
-		"pp":  vList("ptr", vList("ptr", zooNode("ppn", false))),
-		"ps":  vList("ptr", vList("slice", vInt(1), vStr("b"))),
-		"pm":  vList("ptr", vMap("map", map[string]VD{"k": vInt(1)})),
-		"nl":  vNil(),
-		"er":  vERoot("z"),
-		"pgf": vPage("first", "f"),
-		"pgl": vList("ptr", vPage("last", "l")),
-		"pgm": vPage("mid", "m"),
-		"pgb": vPage("base", "b"),
-		"pe":  vList("ptr", vERoot("pz")),
+		"a":    vList("slice", vInt(1), vMap("map", map[string]VD{"k": vStr("v"), "0": vStr("zero")}), vList("ints", vInt(5), vInt(6)), vNil()),
+		"n":    zooNode("nm", true),
+		"p":    vList("ptr", zooNode("pn", false)),
+		"np":   {K: "nilptr", S: "node"},
+		"ss":   vMap("mapss", map[string]VD{"k": vStr("v"), "0": vStr("z")}),
+		"mi":   vMap("mapis", map[string]VD{"1": vStr("one"), "2": vStr("two")}),
+		"ar":   vList("arr3", vInt(7), vInt(8), vInt(9)),
+		"s":    vStr("scalar"),
+		"pp":   vList("ptr", vList("ptr", zooNode("ppn", false))),
+		"ps":   vList("ptr", vList("slice", vInt(1), vStr("b"))),
+		"pm":   vList("ptr", vMap("map", map[string]VD{"k": vInt(1)})),
+		"nl":   vNil(),
+		"nums": vMap("map", numberZooEntries()),
+		"er":   vERoot("z"),
+		"pgf":  vPage("first", "f"),
+		"pgl":  vList("ptr", vPage("last", "l")),
+		"pgm":  vPage("mid", "m"),
+		"pgb":  vPage("base", "b"),
+		"pe":   vList("ptr", vERoot("pz")),
 	})
 	b := vList("slice",
 		zooNode("s0", false),
@@ -345,7 +356,12 @@ func (g genCtx) key(t *rapid.T) string {
 }
 
 func genScalar(t *rapid.T) VD {
-	switch rapid.IntRange(0, 5).Draw(t, "sk") {
+	switch rapid.IntRange(0, 7).Draw(t, "sk") {
+	case 6:
+		// the same small number in every integer spelling
+		return VD{K: rapid.SampledFrom([]string{"int8", "int16", "int32", "int64", "uint", "uint8", "uint16", "uint32", "uint64"}).Draw(t, "ik"), S: rapid.SampledFrom([]string{"0", "7", "44", "100"}).Draw(t, "iv")}
+	case 7:
+		return VD{K: rapid.SampledFrom([]string{"f32", "f64"}).Draw(t, "fk"), S: rapid.SampledFrom([]string{"0.1", "19.99", "1e21", "1.5e-7", "2.5", "3", "-0.5"}).Draw(t, "fv")}
 	case 0:
 		return VD{K: "bool", S: rapid.SampledFrom([]string{"true", "false"}).Draw(t, "b")}
 	case 1:
@@ -366,6 +382,10 @@ func (g genCtx) node(t *rapid.T, depth int) VD {
 	if opt("ids") {
 		m["Short"] = vStr("short-id")
 		m["Long"] = vStr("LONG-ID")
+	}
+	if opt("acct") {
+		m["Acct"] = vInt(rapid.IntRange(0, 9).Draw(t, "Acct"))
+		m["Bare"] = vStr("bare")
 	}
 	if opt("kinds") {
 		m["Type"] = vStr("legacy-type")
